@@ -195,6 +195,44 @@ func (h *seqHist) opRowRevComp() {
 	h.r.Count("op_row_revcomp", 1)
 }
 
+// opRowReverse reverses one row through its own handle (for column-stored alignments that is separate code from the
+// container's Reverse, which swaps whole columns).
+func (h *seqHist) opRowReverse() {
+	if h.m.isLinear() {
+		return
+	}
+	ri := h.r.Rng.Intn(len(h.m.Rows))
+	h.Ops = append(h.Ops, fmt.Sprintf("Row(%d).Reverse", ri))
+	h.rower().Row(ri).Reverse()
+	h.m.revRow(ri, false)
+	h.m.Rows[ri].Strand = 0
+	h.r.Count("op_row_reverse", 1)
+}
+
+// opRowClone clones one row through its handle: the copy carries the row's letters (and qualities) and is independent.
+func (h *seqHist) opRowClone() {
+	if h.m.isLinear() {
+		return
+	}
+	ri := h.r.Rng.Intn(len(h.m.Rows))
+	h.Ops = append(h.Ops, fmt.Sprintf("Row(%d).Clone, then overwrite the copy", ri))
+	c, ok := h.rower().Row(ri).Clone().(seq.Sequence)
+	if !ok || c == nil {
+		h.fail("clone-not-independent", "Row.Clone did not return a sequence")
+		return
+	}
+	row := h.m.Rows[ri]
+	l, q := readRow(c, c.Start(), c.End(), h.m.hasQ())
+	if l != string(row.L) || (h.m.hasQ() && q != string(row.Q)) {
+		h.fail("clone-not-independent", fmt.Sprintf("Row(%d).Clone carries letters %q qualities %v, the row holds %q %v", ri, l, []byte(q), row.L, row.Q))
+		return
+	}
+	for p := c.Start(); p < c.End(); p++ { // the container must not notice (checked right after this operation)
+		c.Set(p, alphabet.QLetter{L: '!', Q: 1})
+	}
+	h.r.Count("op_row_clone", 1)
+}
+
 func (h *seqHist) opRowSetOffset() {
 	if h.m.isLinear() {
 		return
@@ -514,6 +552,24 @@ func (h *seqHist) checkConsensus() {
 	al := h.m.alpha()
 	S, E := h.m.span()
 	a := h.x.(seq.Aligned)
+	// the container's own Consensus method (count-based for these kinds; the quality alignment uses another function)
+	var cons []alphabet.QLetter
+	if h.m.Kind != "aqseq" {
+		if c, ok := h.x.(interface{ Consensus(bool) *linear.QSeq }); ok {
+			q := c.Consensus(false)
+			if q == nil || q.Len() != E-S {
+				h.fail("consensus", fmt.Sprintf("Consensus(false) has %d letters for an alignment of %d columns", q.Len(), E-S))
+				return
+			}
+			cons = q.Seq
+			if h.m.isMulti() { // with missing rows included the uniform columns are the same ones
+				if q2 := c.Consensus(true); q2 == nil || q2.Len() != E-S {
+					h.fail("consensus", fmt.Sprintf("Consensus(true) has %d letters for an alignment of %d columns", q2.Len(), E-S))
+					return
+				}
+			}
+		}
+	}
 	for p := S; p < E; p++ {
 		var l byte
 		uniform := true
@@ -541,6 +597,13 @@ func (h *seqHist) checkConsensus() {
 		if strings.ToLower(string([]byte{byte(got.L)})) != strings.ToLower(string([]byte{l})) {
 			h.fail("consensus", fmt.Sprintf("column %d holds %q in every row but DefaultConsensus gives %q", p, l, byte(got.L)))
 			return
+		}
+		if cons != nil {
+			h.r.Count("uniform_columns_checked_through_the_consensus_method", 1)
+			if c := byte(cons[p-S].L); strings.ToLower(string([]byte{c})) != strings.ToLower(string([]byte{l})) {
+				h.fail("consensus", fmt.Sprintf("column %d holds %q in every row but letter %d of Consensus(false) is %q", p, l, p-S, c))
+				return
+			}
 		}
 	}
 }
